@@ -675,6 +675,14 @@ func (u *Unit) evalCall(e *SExpr, env *Env) Val {
 			return Val{T: sArr(x.T)}
 		}
 		return Val{T: sOff(x.T)}
+	case "atentry":
+		// atentry(e): the value e had when the (most recently entered) loop was entered
+		if u.curLoopPre == nil {
+			u.specFail("atentry() outside a loop clause")
+		}
+		sub := *env
+		sub.st = u.curLoopPre
+		return u.eval(e.Args[0], &sub)
 	case "fcall":
 		// fcall(Name, args...): the value a functional callee (trusted, `opt functional`) returns for these
 		// arguments in the current heap; a []byte result is given as Bytes
